@@ -407,6 +407,12 @@ def run(job, streams=None):
         # what the server put on the wire (before any s2c tampering)
         shv = tuple(obs["sh"]["version"])
         rnd = obs["sh"]["random"]
+        if shv == smax and rnd[-8:] in (SENT12, SENT11):
+            # the server negotiated its own maximum: there is no downgrade
+            # to signal, and a TLS 1.3 capable peer must abort on this
+            v("sentinel_spurious", "%s|%s" % (kind, shv),
+              "server negotiated its maximum version %s but wrote the "
+              "downgrade sentinel into ServerHello.random" % (shv,))
         if (smax == (3, 4) and shv <= (3, 3)) or \
                 (smax == (3, 3) and shv < (3, 3)):
             want = SENT12 if shv == (3, 3) else SENT11
